@@ -11,6 +11,8 @@ MCClasses == [Procs -> {BehOps(b) : b \in ClassBehNames}]
 
 MCHijack == [Procs -> {BehOps(b) : b \in HijackBehNames \cup {"none", "wh404"}}]
 
+MCStream == [Procs -> {BehOps(b) : b \in StreamBehNames}]
+MCStreamQ == [Procs -> {BehOps(b) : b \in {"cpwith", "cpwto", "cperr", "wstring", "servecontent"}}]
 MCCaps == [Procs -> {BehOps(b) : b \in {"hj", "hjfail", "flush", "deadline", "duplex", "wh404"}}]
 
 T(a, b, c) == <<BehOps(a), BehOps(b), BehOps(c)>>
